@@ -7,7 +7,7 @@
 //! raw poller keys. Nothing in here changes the behaviour of the loop; with no
 //! hook installed a yield point is a single relaxed atomic load.
 
-use std::sync::atomic::{AtomicUsize, Ordering};
+use std::sync::atomic::{AtomicPtr, Ordering};
 
 use crate::token::TokenInner;
 use crate::{Token, TokenFactory};
@@ -48,20 +48,24 @@ pub enum Site {
 /// Number of sites
 pub const N_SITES: usize = Site::BoPollPost as usize + 1;
 
-static HOOK: AtomicUsize = AtomicUsize::new(0);
+static HOOK: AtomicPtr<()> = AtomicPtr::new(std::ptr::null_mut());
 
 /// Install (or remove) the process-wide yield hook
 pub fn set_yield_hook(hook: Option<fn(Site)>) {
-    HOOK.store(hook.map(|f| f as usize).unwrap_or(0), Ordering::SeqCst);
+    HOOK.store(
+        hook.map(|f| f as *const () as *mut ())
+            .unwrap_or(std::ptr::null_mut()),
+        Ordering::SeqCst,
+    );
 }
 
 /// A yield point: calls the installed hook, if any
 #[inline]
 pub fn yield_point(site: Site) {
     let raw = HOOK.load(Ordering::Relaxed);
-    if raw != 0 {
-        // SAFETY: the only non-zero values ever stored are `fn(Site)` pointers
-        let hook: fn(Site) = unsafe { std::mem::transmute::<usize, fn(Site)>(raw) };
+    if !raw.is_null() {
+        // SAFETY: the only non-null values ever stored are `fn(Site)` pointers
+        let hook: fn(Site) = unsafe { std::mem::transmute::<*mut (), fn(Site)>(raw) };
         hook(site);
     }
 }
